@@ -51,6 +51,7 @@ CASE_TIMEOUT = 600
 PROCEDURES = {
     0x0405: ('Create_Connection', {0x03}),
     0x0406: ('Disconnect', {0x05}),
+    0x0409: ('Accept_Connection_Request', {0x03}),
     0x0411: ('Authentication_Requested', {0x06}),
     0x0413: ('Set_Connection_Encryption', {0x08, 0x59}),
     0x0419: ('Remote_Name_Request', {0x07}),
@@ -89,7 +90,8 @@ def plan(tier, seed):
              'classic-connect-absent', 'disconnect-live', 'disconnect-unknown', 'disconnect-peer-gone',
              'le-features-live', 'le-features-peer-gone', 'remote-name-present', 'remote-name-absent',
              'le-encrypt-live', 'le-encrypt-dead', 'cis-setup', 'cis-bad-handle', 'classic-features-live',
-             'classic-auth-live', 'remote-version-live', 'remote-version-dead']
+             'classic-auth-live', 'remote-version-live', 'remote-version-dead', 'classic-accept-central-switch-refused',
+             'classic-accept-central-switch-allowed', 'classic-accept-peripheral']
     reps = 3 if tier == 'quick' else 40
     for p in procs:
         for k in range(reps):
@@ -330,8 +332,15 @@ async def host_case(case, r: R):
                 r.bad('single/caller-hang/' + ('async' if isinstance(cmd, hci.HCI_AsyncCommand) else 'sync'),
                       f'send_command({cmd.name}) pending after 120 virtual s')
                 return
-            except Exception as ex:
+            except hci.HCI_Error:
                 r.ev('host_command_raised')
+                continue
+            except Exception as ex:
+                # send_command() without result checking has no reason to raise: the caller did
+                # not get the response to its command
+                r.ev('oracle_evals')
+                r.bad(f'own/caller-got-exception/{type(ex).__name__}',
+                      f'send_command({cmd.name}) raised {type(ex).__name__}: {ex} (tasks={ntasks} delay={delay})')
                 continue
             r.ev('host_commands')
             r.ev('own_opcode_checks')
@@ -536,6 +545,40 @@ async def proc_case(case, r: R):
         rg.devices[1].on('cis_request', lambda cis_link: asyncio.ensure_future(accept(cis_link)))
         await issue(hci.HCI_LE_Create_CIS_Command(cis_connection_handle=[cis_handle], acl_connection_handle=[acl]),
                     {('le', 0x19)})
+    elif p.startswith('classic-accept'):
+        # device 1 does not answer connection requests by itself; the harness accepts by hand
+        rg.devices[1].classic_accept_any = False
+        allow = 0 if p.endswith('refused') else 1
+        role = 1 if p.endswith('peripheral') else 0
+        s1 = len(rg.hci_log)
+        try:
+            await vloop.vwait(host.send_command(hci.HCI_Create_Connection_Command(
+                bd_addr=rg.devices[1].public_address, packet_type=0xCC18, page_scan_repetition_mode=2, clock_offset=0,
+                allow_role_switch=allow, reserved=0)), 120)
+        except vloop.Hang:
+            r.bad('answer/none/proc/create-connection', 'Create Connection never answered')
+        await rg.quiesce()
+        reqs = [e for e in parse_events(rg.hci_log, 1, s1) if e[4] == 0x04]
+        if not reqs:
+            r.ev('accept_no_connection_request_seen')
+        else:
+            try:
+                resp = await vloop.vwait(rg.hosts[1].send_command(hci.HCI_Accept_Connection_Request_Command(
+                    bd_addr=rg.devices[0].public_address, role=role)), 120)
+            except vloop.Hang:
+                r.bad(f'answer/none/proc/{p}', 'Accept Connection Request never answered')
+                resp = None
+            if resp is not None and getattr(resp, 'status', 1) == 0:
+                r.ev('pending_procedures_followed')
+                await asyncio.sleep(60)
+                await rg.quiesce()
+                for dev, who in ((1, 'acceptor'), (0, 'initiator')):
+                    done = [e for e in parse_events(rg.hci_log, dev, s1) if e[1] == 'ev' and e[4] == 0x03]
+                    r.ev('oracle_evals')
+                    if not done:
+                        r.bad(f'conclude/never/proc/{p}/{who}',
+                              f'the {who} accepted/created the connection as pending but never got a Connection Complete '
+                              f'(allow_role_switch={allow}, accept role={role})')
     elif p == 'classic-features-live':
         await issue(hci.HCI_Read_Remote_Supported_Features_Command(connection_handle=cl[0].handle), {0x0B})
     elif p == 'classic-auth-live':
@@ -545,6 +588,11 @@ async def proc_case(case, r: R):
         await issue(hci.HCI_Read_Remote_Version_Information_Command(connection_handle=h), {0x0C})
     await rg.quiesce()
     for where, ex in rg.exceptions:
+        if p.startswith('classic-accept') and where.startswith('c2h'):
+            # these scenarios drive the controllers by raw commands behind the Device layer,
+            # whose bookkeeping of the not-yet-existing connection is not what is judged
+            r.ev('host_side_exceptions_ignored')
+            continue
         r.bad(f'answer/exception-later/proc/{p}', f'{where}: {ex}')
     r.sig('proc', p, delay, case['seed'])
     r.sched.add(rg.schedule_signature)
